@@ -804,7 +804,7 @@ class C18(fw.Property):
                   "requests fail at once with LibraryShutdown; the remaining timers run out. Supporting invariants proved for all reachable states: every cancellable timer is referenced from "
                   "_active_exchanges/_piggyback_opportunities (NSTART bookkeeping), every unsettled request is in outgoing_requests, every dedup-expiry timer finds its key. Two contexts are independent. "
                   "The model is tied to the code by running both on the same event scripts (shutdown at every position of busy templates + random walks generated against the live stack).")
-    level_note = ("Runtime partial: SHUTDOWN_TIMEOUT of asyncio.wait is exercised by the oracle only (hung-transport scenario), garbage collection and real sockets after close() are outside the model. "
+    level_note = ("SHUTDOWN_TIMEOUT with a transport that never finishes closing is modelled as a layer over the machine (cstep/crun, theorem C18_shutdown_times_out, hung stream); several interfaces of which only some block are not. Runtime partial: garbage collection and real sockets after close() are outside the model. "
                   "Datagrams delivered to dispatch_message after shutdown are out of scope (udp6 closes its socket synchronously inside shutdown); a second Context.shutdown() is out of scope. "
                   "A running handler is identified with its incoming_requests entry by the model (a handler lingering after its last response is cancelled by the end of its pipe: modelled and driven). "
                   "Open finding C18:resolving-request-left-hanging: a request still inside Context.find_remote_and_interface at shutdown is not failed (modelled faithfully: ClientRequestSlow/Resolved; refutation witness proved). "
@@ -912,15 +912,25 @@ class C18(fw.Property):
 
     # ------------------------------------------------------------------ model
     def model(self, stream, inp):
-        if stream not in ("script", "outofscope"): return None
+        if stream not in ("script", "outofscope", "hung"): return None
         evs = glist([g_event(e) for e in inp["events"]])
-        return ("let r := run (init %s %s %s) %s in let f := advance_to ADVANCE_FUEL (fst r) (Z.max (now (mm (fst r)) + 300000000) 400000000) in "
-                "(snd r, snd f, Z.of_nat (List.length (pending (mm (fst f)))), run_orphans (init %s %s %s) %s)") % (
-                   gz(inp["uniform"]), gz(inp["mid0"]), gz(inp["tok0"]), evs, gz(inp["uniform"]), gz(inp["mid0"]), gz(inp["tok0"]), evs)
+        ini = "(init %s %s %s)" % (gz(inp["uniform"]), gz(inp["mid0"]), gz(inp["tok0"]))
+        if stream == "hung":
+            # Context.shutdown over a transport that never finishes closing: the layered machine [crun] with the SHUTDOWN_TIMEOUT timer
+            cevs = glist(["CShutdown false" if e[0] == "shutdown" else "CEvent (%s)" % g_event(e) for e in inp["events"]])
+            return ("let r := crun {| c_base := %s; c_wait := None |} %s in let b := c_base (fst r) in "
+                    "let f := advance_to ADVANCE_FUEL b (Z.max (now (mm b) + 300000000) 400000000) in "
+                    "(snd r, snd f ++ match c_wait (fst r) with Some _ => [OShutdownDone] | None => [] end, Z.of_nat (List.length (pending (mm (fst f)))), run_orphans %s %s)") % (ini, cevs, ini, evs)
+        return ("let r := run %s %s in let f := advance_to ADVANCE_FUEL (fst r) (Z.max (now (mm (fst r)) + 300000000) 400000000) in "
+                "(snd r, snd f, Z.of_nat (List.length (pending (mm (fst f)))), run_orphans %s %s)") % (ini, evs, ini, evs)
     def decode(self, stream, inp, p):
         steps, late, left, orph = fw.plain(p)
-        return {"steps": [canon_step([d_output(o) for o in st]) for st in steps], "late": canon_step([d_output(o) for o in late]), "timers_left": left, "bystander": "same",
-                "orphan_timers": orph}
+        res = {"steps": [canon_step([d_output(o) for o in st]) for st in steps], "late": canon_step([d_output(o) for o in late]), "timers_left": left, "bystander": "same",
+               "orphan_timers": orph}
+        if stream == "hung":     # asyncio's timer fires exactly at its deadline
+            returned = any(["shutdown_done"] in st for st in res["steps"]) or ["shutdown_done"] in res["late"]
+            res["shutdown_took_us"] = 3_000_000 if returned else None
+        return res
 
     # ------------------------------------------------------------------ oracle
     def oracle(self, stream, inp, res):
